@@ -7,6 +7,8 @@ package main
 //	sc  <type>               derive the schema                  -> schema=<S> | err:derive
 //	rt  <type> | <value>     serializeVgirpcStruct, read the IPC stream, deserializeParams
 //	                         -> schema=<S> wire=<row 0> back=<value> | err:derive | … err:encode | … err:decode
+//	rth <type> | <value>     like rt, but the run of consecutive rth lines of a case is a HISTORY: all values are
+//	                         serialized first (the byte strings kept), then all are decoded, last first
 //	wr  <type> | <cells>     a peer's batch with these cells -> deserializeParams -> serializeVgirpcStruct
 //	wrx <type> | <cells>     same; the generator asserts every cell is representable in its Go field, so
 //	                         the oracle demands the re-serialized row equals the row sent
@@ -38,7 +40,7 @@ func init() {
 		Exec: c08Exec,
 		NonTrivial: func(lines []string) bool {
 			for _, l := range lines {
-				if (strings.HasPrefix(l, "rt ") || strings.HasPrefix(l, "wr")) && strings.Contains(l, " x") {
+				if (strings.HasPrefix(l, "rt") || strings.HasPrefix(l, "wr")) && strings.Contains(l, " x") {
 					return true
 				}
 			}
@@ -72,7 +74,8 @@ func c08ReadRow0(data []byte) (arrow.RecordBatch, error) {
 }
 
 func c08Exec(c *Case) {
-	for _, l := range c.Lines {
+	for i := 0; i < len(c.Lines); i++ {
+		l := c.Lines[i]
 		f := strings.Fields(l)
 		if len(f) == 0 {
 			continue
@@ -80,9 +83,111 @@ func c08Exec(c *Case) {
 		switch f[0] {
 		case "sc", "rt", "wr", "wrx":
 			c08ExecLine(c, l, f)
+		case "rth": // a history: the maximal run of rth lines is serialized first, decoded afterwards
+			j := i
+			for j < len(c.Lines) && strings.HasPrefix(c.Lines[j], "rth ") {
+				j++
+			}
+			c08ExecHistory(c, c.Lines[i:j])
+			i = j - 1
 		default:
 			c.Out(l, "err:bad-op")
 		}
+	}
+}
+
+// c08ExecHistory: every value of the run is serialized (all returned byte strings kept), then
+// every byte string is decoded, last one first. Each line is an independent round trip for the
+// model; for the implementation, bytes handed out by an earlier call must still be that call's
+// bytes after the later calls.
+func c08ExecHistory(c *Case, lines []string) {
+	type item struct {
+		l, out     string
+		ty         *c08Ty
+		rt         reflect.Type
+		sch        string
+		data, snap []byte
+		want       string
+		wantOK     bool
+		done       bool
+	}
+	items := make([]*item, len(lines))
+	for k, l := range lines {
+		it := &item{l: l}
+		items[k] = it
+		f := strings.Fields(l)
+		tt, vt := c08SplitBar(f[1:])
+		ty, rest, err := c08ParseTy(tt)
+		if err != nil || len(rest) != 0 || ty.K != "st" {
+			it.out, it.done = "err:script", true
+			continue
+		}
+		it.ty, it.rt = ty, ty.rtype()
+		s, err := vgirpc.VerifC08CachedSchema(it.rt)
+		if err != nil {
+			it.out, it.done = "err:derive", true
+			continue
+		}
+		it.sch = c08SchemaString(s)
+		val, rest, err := c08ParseVal(ty, vt)
+		if err != nil || len(rest) != 0 {
+			it.out, it.done = "err:script", true
+			continue
+		}
+		rv, err := c08Build(ty, val)
+		if err != nil {
+			it.out, it.done = "err:script", true
+			continue
+		}
+		it.want, it.wantOK = c08ExpectTop(ty, val)
+		data, err, pan := vgirpc.VerifC08Serialize(rv.Interface())
+		if err != nil || pan != nil {
+			if it.wantOK {
+				c.Oracle("supported-value-rejected-encode", fmt.Sprintf("%s: %v %v", l, err, pan))
+			}
+			it.out, it.done = "schema="+it.sch+" err:encode", true
+			continue
+		}
+		it.data, it.snap = data, append([]byte{}, data...)
+	}
+	for k := len(items) - 1; k >= 0; k-- {
+		it := items[k]
+		if it.done {
+			continue
+		}
+		c.Stat("history-member")
+		if !bytes.Equal(it.data, it.snap) {
+			c.Oracle("roundtrip-aliased-buffer", fmt.Sprintf("%s: the %d bytes returned for value %d of %d changed while the later values were serialized", it.l, len(it.snap), k+1, len(items)))
+		}
+		out := "schema=" + it.sch
+		batch, err := c08ReadRow0(it.data)
+		if err != nil {
+			c.Oracle("roundtrip-after-later-serialization", fmt.Sprintf("%s: the bytes no longer hold a readable stream: %v", it.l, err))
+			it.out = out + " err:ipc"
+			continue
+		}
+		if ws := c08SchemaString(batch.Schema()); ws != it.sch {
+			c.Oracle("roundtrip-after-later-serialization", fmt.Sprintf("%s: stream schema %s, derived %s", it.l, ws, it.sch))
+		}
+		out += " wire=" + c08RowString(batch)
+		back, err, pan := vgirpc.VerifC08Deserialize(batch, it.rt)
+		if err != nil || pan != nil {
+			if it.wantOK {
+				c.Oracle("roundtrip-after-later-serialization", fmt.Sprintf("%s: decode failed: %v %v", it.l, err, pan))
+			}
+			it.out = out + " err:decode"
+			batch.Release()
+			continue
+		}
+		got := c08Show(it.ty, back)
+		batch.Release()
+		if it.wantOK && got != it.want {
+			c.Oracle("roundtrip-after-later-serialization", fmt.Sprintf("%s: value %d of %d decoded %s, sent %s", it.l, k+1, len(items), got, it.want))
+		}
+		it.out = out + " back=" + got
+	}
+	for _, it := range items {
+		c.Out(it.l, it.out)
 	}
 }
 
